@@ -81,6 +81,9 @@ enum Instr {
     FetchGrad(usize),
     /// backward(Some(clone of another variable)): the seed is an existing array handed over as it is
     BackwardH(usize, usize),
+    /// (directly after `model`) one flag per layer: stop_tracking() on that layer's parameters, through the public
+    /// `Layer::parameters()`, before the model is built - a frozen layer
+    MFreeze(Vec<usize>),
     TakeVec(usize),
     Index(usize, Vec<usize>),
     IndexFlat(usize, usize),
@@ -205,6 +208,7 @@ fn parse_instr(line: &str) -> Instr {
             let h = t.u();
             Instr::BackwardH(h, t.u())
         }
+        "mfreeze" => Instr::MFreeze(t.us()),
         "grad" => Instr::Grad(t.u()),
         "cleargrad" => Instr::ClearGrad(t.u()),
         "gradmutnone" => Instr::GradMutNone(t.u()),
@@ -574,6 +578,7 @@ fn exec(
                 }
             });
         }
+        Instr::MFreeze(_) => panic!("mfreeze must directly follow the model instruction"),
         Instr::BackwardH(h, s) => {
             LOG.with(|l| l.borrow_mut().clear());
             let seed = var(vars, *s).clone();
@@ -813,6 +818,20 @@ fn run_model(specs: &[LayerSpec], cost_name: &str, lr: Float, rest: &[Instr], w:
         }
     };
     writeln!(w, "o 0").unwrap();
+    let mut rest = rest;
+    let mut first = 1;
+    if let Some(Instr::MFreeze(flags)) = rest.first() {
+        for (l, f) in layers.iter_mut().zip(flags.iter()) {
+            if *f == 1 {
+                for p in l.parameters() {
+                    p.stop_tracking();
+                }
+            }
+        }
+        writeln!(w, "o 1").unwrap();
+        rest = &rest[1..];
+        first = 2;
+    }
     let gd = GradientDescent::new(lr);
     let cost_fn = match cost_name {
         "mse" => cost::mse(),
@@ -821,8 +840,8 @@ fn run_model(specs: &[LayerSpec], cost_name: &str, lr: Float, rest: &[Instr], w:
     };
     let refs: Vec<&mut dyn Layer> = layers.iter_mut().map(|b| &mut **b as &mut dyn Layer).collect();
     let mut model = Some(Model::new(refs, &gd, &cost_fn));
-    let mut vars: Vec<Option<Array>> = vec![None];
-    run_loop(rest, 1, &mut vars, &mut model, w);
+    let mut vars: Vec<Option<Array>> = vec![None; first];
+    run_loop(rest, first, &mut vars, &mut model, w);
     // leak nothing across cases: drop order is model, then layers
     drop(model);
 }
